@@ -256,9 +256,12 @@ class TaskCoordinator:
                             )
                         process_completed_tasks()
                 except KeyboardInterrupt as first_keyboard_interrupt:
-                    logger.info(('Interrupted. Finishing running tasks. '
-                                 'Press Ctrl-C again to terminate running tasks immediately.'))
                     try:
+                        # Log inside the try block, so that a second
+                        # interrupt that arrives while logging still
+                        # terminates the running tasks.
+                        logger.info(('Interrupted. Finishing running tasks. '
+                                     'Press Ctrl-C again to terminate running tasks immediately.'))
                         runner.cancel()
                         # Process completed tasks until running tasks
                         # have completed.
